@@ -289,5 +289,25 @@ PROPS = {
         'trusted': NUMPY_TRUST + ['builtin round / min / max', 'numpy.mean = sum / n'],
         'extra': [{'name': 'response', 'kind': 'bounded', 'script': 'bounded/response.py', 'timeout': 2400}],
     },
-    'C20': {'level': 'other', 'claim': 'uc', 'level_note': 'uc', 'trusted': [], 'not_applicable': 'under construction'},
+    'C20': {
+        'level': 'other',
+        'claim': 'Proved on the real code, for all cell values: a Links row gives each direction its own cells, a blank west '
+                 'cell takes the east value (the default when east is blank too) and a filled west cell - zero included - is '
+                 'kept (Link.update_attr, per column pair and with every cell filled); an Eqpt row keeps east and west apart '
+                 '(a blank west cell is blank, not a copy of east); a Service row becomes a request between "trx <site>" end '
+                 'points with spacing GHz -> Hz, power dBm -> W, bandwidth Gbit/s -> bit/s, integer channel count, LOOSE only '
+                 'when the cell is blank or yes, unknown transceiver or mode rejected with ServiceError (Request.update_attr, '
+                 'Request_element.__init__); pathrequest / pathsync state those values, the route list in sheet order with its '
+                 'strictness and one synchronisation vector [own id] + listed ids. Whole workbooks (sites, fibres, wiring, '
+                 'amplifier placement, per-degree powers, rejection of malformed sheets, name correction of route lists) are a '
+                 'bounded stand-in on generated .xlsx workbooks through the real xls_to_json_data / load_network / load_requests.',
+        'level_note': 'NOT an unbounded proof of the conversion: xls_to_json_data, sanity_check, the element / connection builders '
+                      'and correct_xls_route_list are outside the contract engine (string-keyed graphs of arbitrary size) and only '
+                      'checked bounded; route lists and disjoint-from lists are fixed texts in the contracts (str.split on a '
+                      'symbolic cell is not modelled); .xls files are only read from the shipped examples (no writer installed); '
+                      'bounded: 6 topologies x 5 Links variants x 6 Eqpt/Roadms variants, 18 malformed workbooks, 12+ service rows',
+        'trusted': ['xls_utils.correct_cell_int_to_str (assumed identity on text cells)', 'str.split on constant texts',
+                    'openpyxl / xlrd readers (used as they are by the bounded stand-in)'],
+        'extra': [{'name': 'workbook', 'kind': 'bounded', 'script': 'bounded/workbook.py', 'timeout': 2400}],
+    },
 }
